@@ -420,7 +420,11 @@ def configs(tier):
                 for order in orders:
                     if tier == "quick" and kind == "quadratic" and K == 2 and mode == "box" and order == "fi":
                         continue  # undecided within the quick caps; thorough tier only
-                    cfgs.append({"type": "spline", "kind": kind, "K": K, "mode": mode, "box": box, "order": order, "timeout": t if (K < 3 or kind == "linear") else 120, "decide_timeout": 8 if (tier == "quick" or (K == 3 and kind != "linear")) else 30, "bughunt": K == 3 and kind != "linear"})
+                    # bug hunting only (undecided queries claim nothing): three bins of the non-linear families, and the
+                    # two-bin compositions that nlsat leaves undecided or needs > 40 min for (measured in the thorough tier):
+                    # forward-then-inverse of rq / quadratic, inverse-then-forward of the quadratic box spline
+                    bh = kind != "linear" and (K == 3 or (K == 2 and (order == "if" or (kind == "quadratic" and mode == "box" and order == "fi"))))
+                    cfgs.append({"type": "spline", "kind": kind, "K": K, "mode": mode, "box": box, "order": order, "timeout": 120 if bh else t, "decide_timeout": 8 if (tier == "quick" or bh) else 30, "bughunt": bh})
     for order in ("f", "i", "fi"):
         cfgs.append({"type": "spline", "kind": "rq", "K": 2, "mode": "box", "box": "unit", "floors": True, "order": order, "timeout": t, "decide_timeout": 8})
     for c in CS.cases_for(tier, with_history=True):
@@ -432,7 +436,9 @@ def configs(tier):
             orders = ("f", "if")  # the stand-alone inverse needs an input of the squeezed shape; covered by "if"
         elif c.name.startswith("LogTanh"):
             orders = ("f", "i", "fi", "if")
-        elif spline_based and tier == "quick" and not ("K=1" in c.name or "Coupling/K=2" in c.name):
+        elif spline_based and not ("K=1" in c.name or "Coupling/K=2" in c.name) and (tier == "quick" or "K=2" in c.name):
+            # (two-bin CDF / autoregressive modules: the stand-alone inverse of two features ran > 40 min per case in
+            # the thorough tier; the inverse of the spline functions themselves is decided directly above)
             orders = ("f",)
         elif spline_based:
             # the round trip of the spline *functions* is decided above; the modules only route parameters to them
